@@ -100,12 +100,14 @@ def explore(tier, seed):
             cands.setdefault(f"seq|{'>'.join(ks)}|{kind}", ({"sequence": True, "seq": list(ks), "kind": kind}, detail))
     # pairs that meet on the manifest only
     mpairs, mhit, _ = seqspace.explore_manifest_pairs(tier, seed)
-    for (k1, k2), rec in sorted(mpairs.items()):
+    for key, rec in sorted(mpairs.items()):
+        k1, k2 = key[:2]
         states.add(core.tree_state_id(rec["files"]))
         for t in [rec["batch"]["tree"]] + [c["tree"] for c in rec["chain"]]:
             states.add(core.tree_state_id({k: v for k, v in t.items() if isinstance(v, bytes)}))
-        for kind, detail in judge(rec):
-            cands.setdefault(f"seq|manifest-only|{k1}>{k2}|{kind}", ({"sequence": True, "manifest_pair": [k1, k2], "kind": kind}, detail))
+        for kind, detail in judge(dict(rec, pair=(k1, k2))):
+            where = "manifest-only" if len(key) == 2 else "same-dependency:" + key[2]
+            cands.setdefault(f"seq|{where}|{k1}>{k2}|{kind}", ({"sequence": True, "manifest_pair": list(key), "kind": kind}, detail))
     # SAST-driven pairs (result files unchanged between the chained invocations, as in the one invocation)
     spairs, shit, swall = seqspace.explore_sast_pairs(tier, seed)
     sequal = 0
@@ -178,7 +180,7 @@ def explore(tier, seed):
 def replay(rp):
     if "manifest_pair" in rp:
         rec = seqspace.manifest_pair_job_cli(tuple(rp["manifest_pair"]))
-        found = list(judge(rec))
+        found = list(judge(dict(rec, pair=tuple(rp["manifest_pair"][:2]))))
         return (rp["kind"] not in {k for k, _ in found}), "\n".join(f"{k}: {d}" for k, d in found) or "one run == chain of single runs"
     if "sast" in rp:
         rec = seqspace.sast_pair_job(tuple(rp["sast"]))
